@@ -90,7 +90,7 @@ pub fn errors_json(e: &Errors) -> Vec<J> {
 
 fn event_json(e: &Event) -> Option<J> {
     Some(match e {
-        Event::LoopIter { .. } => return None,
+        Event::LoopIter { .. } | Event::StorageAccess { .. } => return None,
         Event::Exec {
             tid,
             ip,
